@@ -1,6 +1,8 @@
 """C11 — collision-aware IK returns exactly the non-colliding solutions, in order."""
 from props import _gencommon as G
 ID = "C11"
+# files this check also depends on (the quick tier runs at the thorough sizes when one of them differs from the fingerprinted tree)
+EXTRA_FILES = ['src/tool.rs', 'src/constraints.rs', 'src/kinematics_impl.rs']
 COQ_TARGETS = ["Gen/Delegation.vo", "Properties/C11.vo"]
 THEOREMS = ["C11_shape_entries", "C11_shape_delegates", "C11_remove_collisions_spec", "C11_shape_stack"]
 LEVEL_TEXT = ("Coq theorems about KinematicsWithShape code regenerated from src/kinematics_with_shape.rs: each inverse entry point = the "
